@@ -241,7 +241,11 @@ def update_traits_for_resource_provider(req):
         raise webob.exc.HTTPBadRequest(
             "No such trait %s" % ', '.join(non_existed_trait))
 
-    resource_provider.set_traits(trait_objs)
+    try:
+        resource_provider.set_traits(trait_objs)
+    except exception.ConcurrentUpdateDetected as e:
+        raise webob.exc.HTTPConflict(e.format_message(),
+                                     comment=errors.CONCURRENT_UPDATE)
 
     response_body, last_modified = _serialize_traits(trait_objs, want_version)
     response_body[
